@@ -928,6 +928,34 @@ func (g *Graph) eventsAt(cl Classifier, depth int, cache map[*FuncInfo]*evSummar
 		Step: func(s EvState, st Step) EvState {
 			evs := cl(st)
 			var may map[string]int
+			// a condition with && / ||: only its first operand is certainly evaluated; what the classifier sees in the
+			// other operands may happen (go/cfg keeps the whole condition in one node)
+			if st.Kind == StNode && len(evs) > 0 {
+				if ce, isExpr := st.Node.(ast.Expr); isExpr {
+					if first := firstOperand(ce); first != ce {
+						certain := cl(Step{Kind: StNode, Node: first})
+						left := map[string]int{}
+						for _, e := range certain {
+							left[e]++
+						}
+						var rest []string
+						for _, e := range evs {
+							if left[e] > 0 {
+								left[e]--
+								continue
+							}
+							rest = append(rest, e)
+						}
+						evs = certain
+						if len(rest) > 0 {
+							may = map[string]int{}
+							for _, e := range rest {
+								may[e]++
+							}
+						}
+					}
+				}
+			}
 			// a variable holding a pending outcome is re-assigned: forget it
 			if st.Kind == StNode && len(s.Pending) > 0 {
 				for _, l := range assignedLHS(st.Node) {
@@ -1025,7 +1053,12 @@ func (g *Graph) eventsAt(cl Classifier, depth int, cache map[*FuncInfo]*evSummar
 			if st.Kind == StNode {
 				m, y := calleeEvents(st.Node)
 				evs = append(evs, m...)
-				may = y
+				for e, k := range y {
+					if may == nil {
+						may = map[string]int{}
+					}
+					may[e] += k
+				}
 				// defer helper(...): what the helper does on every path happens at the exit
 				if d, isDefer := st.Node.(*ast.DeferStmt); isDefer && depth < 2 && g.Fi != nil {
 					if _, isLit := ast.Unparen(d.Call.Fun).(*ast.FuncLit); !isLit {
@@ -1268,4 +1301,25 @@ func (g *Graph) deadEdge(b *cfg.Block, i int) bool {
 	}
 	fl := g.deadEdges[b]
 	return i < len(fl) && fl[i]
+}
+
+// firstOperand: the operand of a short-circuit condition that is evaluated whenever the condition is (e itself when
+// it has no && / ||).
+func firstOperand(e ast.Expr) ast.Expr {
+	x := ast.Unparen(e)
+	if u, ok := x.(*ast.UnaryExpr); ok && u.Op == token.NOT {
+		if inner := firstOperand(u.X); inner != u.X {
+			return inner
+		}
+		return e
+	}
+	if b, ok := x.(*ast.BinaryExpr); ok && (b.Op == token.LAND || b.Op == token.LOR) {
+		return firstOperand(b.X)
+	}
+	return e
+}
+
+func isShortCircuit(e ast.Expr) bool {
+	b, ok := ast.Unparen(e).(*ast.BinaryExpr)
+	return ok && (b.Op == token.LAND || b.Op == token.LOR)
 }
